@@ -80,7 +80,7 @@ macro "guard_props" : tactic => `(tactic|
   simp only [wrap64, pow62, pow63, pow64, inInt_iff, isLen_iff, isRawLen_iff,
     Bool.and_eq_true, Bool.or_eq_true, GenSem.bnot_eq_true, GenSem.eq_false_iff_not,
     GenSem.beq_bool_true, GenSem.bne_bool_true,
-    decide_eq_true_eq, bne_iff_ne, beq_iff_eq, ne_eq,
+    decide_eq_true_eq, bne_iff_ne, beq_iff_eq, ne_eq, Int.ofNat_eq_natCast,
     eq_self, not_true_eq_false, not_false_eq_true, Bool.true_eq_false, Bool.false_eq_true,
     true_and, and_true, false_and, and_false, true_or, or_true, false_or, or_false,
     true_iff, iff_true, false_iff, iff_false, implies_true, true_implies, false_implies] at *)
@@ -192,6 +192,12 @@ theorem implode_last (env : Env) (hd : -1 ≤ env.len_data ∧ env.len_data < 46
     (ht : IsRawLen env.len_tpat) :
     Gen.implode_last env = env.len_data + env.i - env.len_tpat := by
   guard_arith [Gen.implode_last]
+
+/-! ## `Condition.Valid` -/
+
+theorem cond_op_bogus (env : Env) :
+    Gen.cond_op_bogus env = decide (¬ (1 ≤ env.assert ∧ env.assert ≤ 6)) := by
+  guard_arith [Gen.cond_op_bogus]
 
 /-! ## whole functions (`Gen/Funcs.lean`) -/
 
